@@ -14,12 +14,25 @@ From Eino Require Import Base.Util Model.StateLock Model.StateLockLTS Model.Stat
 From Eino Require Import Proofs.StateTask.
 From Eino Require Gen.StateTask.
 
-(* Agreement is agreement of BEHAVIOUR: for every task record, every pre-processor / node / post-processor
-   and every combination of the flags the source's programs and the model's end in the same way (fall
-   through / return / submit fails) in the same state with the same log of calls.  So a source that spells
-   a guard the other way round, merges or splits two tests, or moves the handler calls into helpers
-   (inlined by the extractor) still agrees; one that calls a handler on another value, drops its result,
-   or runs it when it must not does not. *)
+(* Agreement is agreement of BEHAVIOUR, as far as the rest of the engine can see it ([tobs]): for every task
+   record, every pre-processor / node / post-processor and every combination of the flags the source's
+   programs and the model's end in the same way (fall through / return / submit fails) with the same log of
+   calls, the same error flag, the same task input and - unless the task has failed - the same task output.
+   Not compared: the block's local variables (the result and the error of the last runWrapper call: they
+   do not outlive the block), the output of a FAILED task (never used: the run fails with the task's
+   error, or - interrupts - the interrupt handlers save the task's INPUT), the task record after a failed
+   submit (the run fails).  So a source that spells a guard the other way round, merges or splits two
+   tests, moves the handler calls into helpers (inlined by the extractor), or returns early from waitOne
+   when the post-handler fails (leaving the node's output in a task that has failed anyway) still agrees;
+   one that calls a handler on another value, drops its result, or runs it when it must not does not. *)
+Definition tobs {X : Type} (r : tres X) : nat * list (tproc * X) * option (bool * X * option X) :=
+  let task st := Some (ts_err st, ts_in st, if ts_err st then None else Some (ts_out st)) in
+  match r with
+  | RRun st => (0%nat, ts_calls st, task st)
+  | RRet st => (1%nat, ts_calls st, task st)
+  | RFail st => (2%nat, ts_calls st, None)
+  end.
+
 Ltac c11_task_agree :=
   intros X has_pre skip has_post proc [i o e t ce calls];
   unfold texec, Gen.StateTask.submit_prog, Gen.StateTask.exec_prog, Gen.StateTask.collect_prog,
@@ -29,28 +42,28 @@ Ltac c11_task_agree :=
   reflexivity.
 
 Lemma gen_submit_agrees : forall X has_pre skip has_post (proc : tproc -> X -> X * bool) st,
-  texec X has_pre skip has_post proc Gen.StateTask.submit_prog st =
-  texec X has_pre skip has_post proc Model.StateTask.submit_prog st.
+  tobs (texec X has_pre skip has_post proc Gen.StateTask.submit_prog st) =
+  tobs (texec X has_pre skip has_post proc Model.StateTask.submit_prog st).
 Proof. c11_task_agree. Qed.
 Lemma gen_exec_agrees : forall X has_pre skip has_post (proc : tproc -> X -> X * bool) st,
-  texec X has_pre skip has_post proc Gen.StateTask.exec_prog st =
-  texec X has_pre skip has_post proc Model.StateTask.exec_prog st.
+  tobs (texec X has_pre skip has_post proc Gen.StateTask.exec_prog st) =
+  tobs (texec X has_pre skip has_post proc Model.StateTask.exec_prog st).
 Proof. c11_task_agree. Qed.
 Lemma gen_collect_agrees : forall X has_pre skip has_post (proc : tproc -> X -> X * bool) st,
-  texec X has_pre skip has_post proc Gen.StateTask.collect_prog st =
-  texec X has_pre skip has_post proc Model.StateTask.collect_prog st.
+  tobs (texec X has_pre skip has_post proc Gen.StateTask.collect_prog st) =
+  tobs (texec X has_pre skip has_post proc Model.StateTask.collect_prog st).
 Proof. c11_task_agree. Qed.
 
 Theorem gen_task_programs_agree : forall X has_pre skip has_post (proc : tproc -> X -> X * bool) st,
-  texec X has_pre skip has_post proc Gen.StateTask.submit_prog st =
-    texec X has_pre skip has_post proc Model.StateTask.submit_prog st /\
-  texec X has_pre skip has_post proc Gen.StateTask.exec_prog st =
-    texec X has_pre skip has_post proc Model.StateTask.exec_prog st /\
-  texec X has_pre skip has_post proc Gen.StateTask.collect_prog st =
-    texec X has_pre skip has_post proc Model.StateTask.collect_prog st.
+  tobs (texec X has_pre skip has_post proc Gen.StateTask.submit_prog st) =
+    tobs (texec X has_pre skip has_post proc Model.StateTask.submit_prog st) /\
+  tobs (texec X has_pre skip has_post proc Gen.StateTask.exec_prog st) =
+    tobs (texec X has_pre skip has_post proc Model.StateTask.exec_prog st) /\
+  tobs (texec X has_pre skip has_post proc Gen.StateTask.collect_prog st) =
+    tobs (texec X has_pre skip has_post proc Model.StateTask.collect_prog st).
 Proof. intros; split; [apply gen_submit_agrees | split; [apply gen_exec_agrees | apply gen_collect_agrees]]. Qed.
 
-(* the pipeline, for the source's programs *)
+(* the pipeline, for the source's programs (proved on them directly: the three blocks one after the other) *)
 Definition gen_run_task (X : Type) (has_pre skip has_post : bool) (proc : tproc -> X -> X * bool) (x d : X) : tres X :=
   match texec X has_pre skip has_post proc Gen.StateTask.submit_prog (mkTS x d false d false []) with
   | RFail st => RFail st
@@ -61,6 +74,8 @@ Definition gen_run_task (X : Type) (has_pre skip has_post : bool) (proc : tproc 
       end
   end.
 
+(* as Props task_handler_pipeline (the model's programs), except that nothing is said about the output of a
+   task that has failed *)
 Theorem gen_task_pipeline : forall (X : Type) has_pre skip has_post (proc : tproc -> X -> X * bool) x d,
   let runs := pre_runs has_pre skip in
   let x1 := if runs then fst (proc TPre x) else x in
@@ -70,22 +85,19 @@ Theorem gen_task_pipeline : forall (X : Type) has_pre skip has_post (proc : tpro
   else
     exists st, gen_run_task X has_pre skip has_post proc x d = RRet st /\ ts_in st = x1 /\
     if snd (proc TAction x1) then
-      ts_err st = true /\ ts_out st = fst (proc TAction x1) /\ ts_calls st = pre_call ++ [(TAction, x1)]
+      ts_err st = true /\ ts_calls st = pre_call ++ [(TAction, x1)]
     else if has_post then
-      ts_out st = fst (proc TPost (fst (proc TAction x1))) /\
+      (ts_err st = false -> ts_out st = fst (proc TPost (fst (proc TAction x1)))) /\
       ts_err st = snd (proc TPost (fst (proc TAction x1))) /\
       ts_calls st = pre_call ++ [(TAction, x1); (TPost, fst (proc TAction x1))]
     else
       ts_out st = fst (proc TAction x1) /\ ts_err st = false /\ ts_calls st = pre_call ++ [(TAction, x1)].
 Proof.
-  intros X has_pre skip has_post proc x d.
-  assert (E : gen_run_task X has_pre skip has_post proc x d = run_task X has_pre skip has_post proc x d).
-  { unfold gen_run_task, run_task. rewrite gen_submit_agrees.
-    destruct (texec X has_pre skip has_post proc submit_prog (mkTS x d false d false [])) as [st1|st1|st1];
-      try reflexivity; rewrite gen_exec_agrees;
-      destruct (texec X has_pre skip has_post proc exec_prog st1) as [st2|st2|st2];
-      try reflexivity; apply gen_collect_agrees. }
-  rewrite E. exact (task_pipeline X has_pre skip has_post proc x d).
+  intros X has_pre skip has_post proc x d. unfold gen_run_task, pre_runs.
+  destruct has_pre, skip, has_post; lazy;
+    repeat match goal with
+           | |- context [proc ?p ?a] => destruct (proc p a) as [? [|]]; lazy
+           end; eexists; repeat split; first [reflexivity | intros; first [reflexivity | discriminate]].
 Qed.
 
 (* non-vacuity: handlers that add 1 / double / add 100 *)
